@@ -1020,6 +1020,13 @@ fn gen(prop: &str, tier: &str, seed: u64) -> Vec<String> {
     for i in 0..(if thorough { 125 } else { 25 }) {
         v.push(gen_lib_mid(&mut r, k0 + i));
     }
+    // one write() above 1 MiB and above 4 MiB through the streaming writers with store + CTR (a cap on what a
+    // writer below the cipher accepts per call shows only above the cap)
+    for (i, n) in [(0usize, (1usize << 20) + 1), (1, (4 << 20) + 1), (2, (1 << 20) + 4097), (3, (2 << 20) + 1)] {
+        let writer = ["awf", "sae", "swf", "awf"][i];
+        let (cipher, mode) = [("aes", "ctr"), ("camellia", "ctr"), ("aes", "ctr"), ("camellia", "cbc")][i];
+        v.push(format!("rt\t{}\tstore\tdef\t{}\t{}\tpbkdf2\t{}\t{}\t{}\t0\t{}\t{}", writer, cipher, mode, i % 2, n, r.below(1 << 32), n, 65536));
+    }
     if thorough {
         for i in 0..6 {
             v.push(gen_lib(&mut r, k + 7 * i, i % 3 == 2, true));
